@@ -239,6 +239,24 @@ Proof.
   cbn [take_while]. destruct (p x) eqn:Hp; constructor; assumption.
 Qed.
 
+Lemma firstn_take p l : firstn (length (take_while p l)) l = take_while p l.
+Proof.
+  induction l as [|x r IH]; [reflexivity|].
+  cbn [take_while]. destruct (p x); [|reflexivity].
+  cbn [length firstn]. f_equal. exact IH.
+Qed.
+
+Lemma skipn_take p l : skipn (length (take_while p l)) l = drop_while p l.
+Proof.
+  induction l as [|x r IH]; [reflexivity|].
+  cbn [take_while drop_while]. destruct (p x); [|reflexivity].
+  cbn [length skipn]. exact IH.
+Qed.
+
+Lemma take_drop_len p l :
+  (length l = length (take_while p l) + length (drop_while p l))%nat.
+Proof. rewrite (take_drop p l) at 1. apply app_length. Qed.
+
 Lemma skips_len ls : length (skips_of ls) = length ls.
 Proof. induction ls as [|l r IH]; [reflexivity|]. cbn [skips_of length]. lia. Qed.
 
@@ -485,7 +503,8 @@ Definition Inv (s : st) : Prop :=
 
 Lemma Inv_init : Inv init.
 Proof.
-  repeat split; try reflexivity. intros B. cbn. split; [exact outline_ok_nil | constructor].
+  split; [reflexivity|]. split; [reflexivity|].
+  intros B. cbn [init spine roots wf]. split; [exact outline_ok_nil | constructor].
 Qed.
 
 Lemma step_ok s e :
@@ -500,15 +519,10 @@ Proof.
   set (p := fun l => L <=? l).
   set (rem := drop_while p ls).
   set (k := length (take_while p ls)).
-  assert (Hlen : (length ls = k + length rem)%nat).
-  { unfold k, rem. rewrite (take_drop p ls) at 1. apply app_length. }
+  assert (Hlen : (length ls = k + length rem)%nat) by apply take_drop_len.
   assert (Hlsp : length (spine s) = length ls) by (unfold ls, levels; rewrite map_length; reflexivity).
-  assert (Hfirst : firstn k ls = take_while p ls).
-  { unfold k. rewrite (take_drop p ls) at 1. rewrite firstn_app, firstn_all, Nat.sub_diag.
-    cbn [firstn]. apply app_nil_r. }
-  assert (Hskip : skipn k ls = rem).
-  { unfold k, rem. rewrite (take_drop p ls) at 1. rewrite skipn_app, skipn_all, Nat.sub_diag.
-    reflexivity. }
+  assert (Hfirst : firstn k ls = take_while p ls) by apply firstn_take.
+  assert (Hskip : skipn k ls = rem) by apply skipn_take.
   rewrite step_unfold, Hsk, Hpv. fold ls L.
   rewrite (sk_of_spec L ls HL Hsd). cbn [bind]. fold p rem. cbv zeta.
   pose proof (skips_sum (L :: rem)) as Hsum. cbn [hd0 hd] in Hsum.
@@ -524,10 +538,10 @@ Proof.
   cbn [bind].
   eexists. split; [reflexivity|].
   pose proof (close_n_levels k (spine s) (roots s)) as Hlev. fold ls in Hlev. rewrite Hskip in Hlev.
-  split; [repeat split|]; cbn [skipped prev spine roots].
+  split; [split; [|split; [reflexivity|]]|]; cbn [skipped prev spine roots].
   - cbn [levels map fst]. fold (levels (fst (close_n k (spine s) (roots s)))). rewrite Hlev. reflexivity.
-  - intros B. cbn [wf]. repeat split; try constructor.
-    + exact I.
+  - intros B. cbn [wf].
+    split; [exact outline_ok_nil|]. split; [constructor|]. split; [constructor|]. split.
     + rewrite Hlev. unfold rem, p. apply drop_while_hd_lt. exact HL.
     + apply close_n_wf; [apply Hwf|]. fold ls. rewrite Hfirst.
       pose proof (take_while_all p ls) as Hall.
@@ -542,11 +556,12 @@ Lemma run_ok es : forall s,
              flat (spine s') (roots s') = flat (spine s) (roots s) ++ es.
 Proof.
   induction es as [|e r IH]; intros s Hinv Hall.
-  - exists s. rewrite app_nil_r. repeat split; try assumption; reflexivity.
+  - exists s. rewrite app_nil_r. split; [reflexivity|]. split; [exact Hinv | reflexivity].
   - inversion Hall as [|? ? He Hr]; subst.
     destruct (step_ok s e Hinv He) as (s1 & Hstep & Hinv1 & Hflat1).
     destruct (IH s1 Hinv1 Hr) as (s2 & Hrun & Hinv2 & Hflat2).
-    exists s2. cbn [run]. rewrite Hstep. cbn [bind]. repeat split; try assumption.
+    exists s2. cbn [run]. rewrite Hstep. cbn [bind].
+    split; [exact Hrun|]. split; [exact Hinv2|].
     rewrite Hflat2, Hflat1, <- app_assoc. reflexivity.
 Qed.
 
@@ -558,6 +573,13 @@ Proof.
   destruct r as [|l' r']; cbn [hd0 hd] in Hhd; [lia|]. inversion IH; subst. lia.
 Qed.
 
+Lemma Forall_firstn' {A} (P : A -> Prop) k : forall l, Forall P l -> Forall P (firstn k l).
+Proof.
+  induction k as [|k IH]; intros l Hl; [constructor|].
+  destruct Hl as [|x r Hx Hr]; [constructor|].
+  cbn [firstn]. constructor; [exact Hx | apply IH; exact Hr].
+Qed.
+
 Lemma close_all_ok sp rs :
   (forall B, wf B sp rs) ->
   preorder (close_all sp rs) = flat sp rs /\ outline_ok (close_all sp rs).
@@ -566,7 +588,7 @@ Proof.
   pose proof (close_n_flat (length sp) sp rs) as Hflat.
   pose proof (close_n_levels (length sp) sp rs) as Hlev.
   assert (Hw : wf 0 (fst (close_n (length sp) sp rs)) (snd (close_n (length sp) sp rs))).
-  { apply close_n_wf; [apply Hwf|]. apply Forall_firstn. apply sdec_pos.
+  { apply close_n_wf; [apply Hwf|]. apply Forall_firstn'. apply sdec_pos.
     eapply wf_sdec. apply (Hwf 0). }
   replace (length sp) with (length (levels sp)) in Hlev at 2
     by (unfold levels; apply map_length).
@@ -588,7 +610,7 @@ Proof.
   destruct (run_ok es init Inv_init Hall) as (s & Hrun & (_ & _ & Hwf) & Hflat).
   destruct (close_all_ok _ _ Hwf) as [Hpre Hok].
   exists (close_all (spine s) (roots s)). unfold make_tree. rewrite Hrun. cbn [bind].
-  repeat split; [|exact Hok]. rewrite Hpre, Hflat. reflexivity.
+  split; [reflexivity|]. split; [|exact Hok]. rewrite Hpre, Hflat. reflexivity.
 Qed.
 
 Corollary make_tree_build :
@@ -605,6 +627,13 @@ Proof. intros es Hall. rewrite (make_tree_build es Hall). reflexivity. Qed.
 
 Corollary child_level_gt :
   forall es f, make_tree es = Ok f -> Forall (fun e => 1 <= e_level e) es -> outline_ok f.
+Proof.
+  intros es f Hmk Hall. rewrite (make_tree_build es Hall) in Hmk.
+  inversion Hmk; subst. apply build_spec.
+Qed.
+
+Corollary make_tree_preorder :
+  forall es f, make_tree es = Ok f -> Forall (fun e => 1 <= e_level e) es -> preorder f = es.
 Proof.
   intros es f Hmk Hall. rewrite (make_tree_build es Hall) in Hmk.
   inversion Hmk; subst. apply build_spec.
@@ -630,3 +659,4 @@ Print Assumptions make_tree_build.
 Print Assumptions make_tree_no_panic.
 Print Assumptions make_tree_panics_on_level_le_0.
 Print Assumptions child_level_gt.
+Print Assumptions make_tree_preorder.
